@@ -176,12 +176,15 @@ pub fn legalise_pat(cfg: &Cfg, raw: &RawPat, id: u16, ordered: bool, in_stub: bo
             quant: Quant::None,
         });
     }
-    PatternSpec {
-        id,
-        mask: raw.mask,
-        matcher: cfg.matchers[pick(raw.matcher, cfg.matchers.len())],
-        chain,
+    let mut matcher = cfg.matchers[pick(raw.matcher, cfg.matchers.len())];
+    let mut mask = raw.mask;
+    if let MatcherKind::Macro(_) = matcher {
+        // one of the fixed `matching!` patterns; its accept set replaces the generated mask
+        let k = raw.mask % 8;
+        matcher = MatcherKind::Macro(k);
+        mask = MACRO_MASKS[k as usize];
     }
+    PatternSpec { id, mask, matcher, chain }
 }
 
 /// Modes per candidate method: 0 = unmentioned, 1 = unordered, 2 = ordered.
